@@ -56,6 +56,16 @@ class SymList:
             i = z3.IntVal(i)
         return self.getf(i)
 
+    def with_item(self, idx_term, val_term):
+        """list after lst[idx] = val (functional update of the element function)"""
+        old = self.getf
+        self.getf = lambda i, _o=old, _k=idx_term, _v=val_term: z3.If(i == _k, _v, _o(i))
+
+    def appended(self, val_term):
+        old, n = self.getf, self.len_t
+        self.getf = lambda i, _o=old, _n=n, _v=val_term: z3.If(i == _n, _v, _o(i))
+        self.len_t = z3.simplify(n + 1)
+
 
 class LazyMap:
     """[f(x) for x in xs] over a sequence of symbolic length, all elements assumed to have
@@ -170,3 +180,16 @@ class VolatileField:
 
     def __init__(self, read):
         self.read = read
+
+
+class CompList:
+    """[elt for k1 in d1 (for k2 in d2(k1)) ...] over symbolic dicts, summarised by its element-wise law:
+    the list holds elt(k) for every key tuple k in the (nested) domains, and nothing else.  `skolems` are the
+    bound key constants, `guard` says they are in their domains, `elems` the element terms for that tuple
+    (several when inner loops over literal tuples were unrolled).  `extra` holds lists appended later."""
+
+    _pyvc_symbolic = True
+
+    def __init__(self, skolems, guard, elems):
+        self.skolems, self.guard, self.elems = skolems, guard, elems
+        self.extra = []
